@@ -129,7 +129,9 @@ protected:
      * case the method should be overridden by a sub class.
      */
     virtual bool allowProcessReferences() { return false; }
-    std::map<std::string, frame_t> dynamicFrames;
+    /** Frames of the templates that the binders of dynamic quantifiers range over, innermost last:
+     * a nested binder may reuse the name of an enclosing one. */
+    std::map<std::string, std::vector<frame_t>> dynamicFrames;
 
 public:
     explicit ExpressionBuilder(Document& doc);
